@@ -11,6 +11,9 @@
 //!       sched every <k> | sched off ; threshold <bytes>
 //!       read <idx>         observe an object (kind and contents by index)
 //!       stats
+//!       leaks              C20: blocks that left the allocator's owner lists during some earlier op of this history
+//!                          (a collection, explicit or triggered by an allocation) and are still live in the checking
+//!                          global allocator's table, i.e. were never handed back: `leaks <n> dropped <m> [first size]`
 //!       reset
 use laythe_core::{
   allocator_verif::{self, Schedule},
@@ -63,9 +66,19 @@ fn main() {
   let mut table: Vec<Entry> = vec![];
   allocator_verif::set_schedule(Schedule::Default, 1);
   allocator_verif::set_force_full(None);
+  // C20 leak oracle: (dropped from the owner lists, of these never handed back, size of the first such block)
+  let mut leak_dropped = 0usize;
+  let mut leak_unreleased = 0usize;
+  let mut leak_first = 0usize;
   for line in stdin.lock().lines() {
     let line = line.unwrap();
     let toks: Vec<&str> = line.split_whitespace().collect();
+    // what the allocator owns before this op: (address, serial number in the global allocator's table)
+    let owned_before: Vec<(usize, usize)> = if toks.first() == Some(&"reset") || toks.first() == Some(&"leaks") {
+      vec![]
+    } else {
+      gc.verif_blocks().iter().map(|(p, _)| (*p, chkalloc::serial_of(*p).unwrap_or(0))).collect()
+    };
     let value_of = |table: &Vec<Entry>, t: &str| -> Option<Value> {
       if t == "-" {
         return Some(VALUE_NIL);
@@ -236,6 +249,13 @@ fn main() {
           s.obj_heap_bytes, s.nursery_bytes, s.intern_len, s.temp_roots
         )
       },
+      ["leaks"] => {
+        if leak_unreleased == 0 {
+          format!("leaks 0 dropped {}", leak_dropped)
+        } else {
+          format!("leaks {} dropped {} first-size {}", leak_unreleased, leak_dropped, leak_first)
+        }
+      },
       ["layout"] => {
         if chkalloc::mismatches() == 0 {
           "layout 0".into()
@@ -245,6 +265,25 @@ fn main() {
       },
       _ => "bad-op".into(),
     };
+    if toks.first() == Some(&"reset") {
+      leak_dropped = 0;
+      leak_unreleased = 0;
+      leak_first = 0;
+    } else if !owned_before.is_empty() {
+      // every block that is no longer owned must have been handed back to the system allocator
+      let owned_after: std::collections::HashSet<usize> = gc.verif_blocks().iter().map(|(p, _)| *p).collect();
+      for (p, serial) in owned_before.iter() {
+        if !owned_after.contains(p) || chkalloc::serial_of(*p) != Some(*serial) {
+          leak_dropped += 1;
+          if *serial != 0 && chkalloc::serial_of(*p) == Some(*serial) {
+            leak_unreleased += 1;
+            if leak_first == 0 {
+              leak_first = chkalloc::size_of(*p).unwrap_or(0);
+            }
+          }
+        }
+      }
+    }
     writeln!(out, "{}", res).unwrap();
     out.flush().unwrap();
   }
